@@ -65,6 +65,14 @@ theorem shared_language_read_only_by_legacy_formatter :
     (touches.filter (fun t => t.1 == "parseErrorLanguage" && t.2.2 == "mention")).map (fun t => t.2.1) =
       ["formatFriendlyError"] := by decide
 
+/-- REGENERATED FACT: the package has exactly these package-level variables — the generated parser's tables and sentinel errors, the
+    builtin tables (written at init only), the message table, the legacy language default and the locked fallback generator.  A new
+    package-level variable (a cache, a pool, a registry) is shared by every VM and has to be argued for here. -/
+theorem package_level_state_is_known :
+    globals.map (fun g => g.1) =
+      ["ErrorFormatter", "binOperator", "builtinProto", "builtinValues", "errInvalidEncoding", "errInvalidEntrypoint", "errMaxExprCnt",
+       "errMsgs", "errNoRule", "expungedValueMap", "g", "nnf", "parseErrorLanguage", "randSource", "randSourceMu"] := by decide
+
 /-- REGENERATED FACT: the package-level random source is only used by Roll (fallback for unseeded contexts) and
     GetCurSeed, and both take randSourceMu -/
 theorem global_source_is_locked :
